@@ -10,11 +10,14 @@ they become the method table `g_method_table`).  Every function f becomes  `Defi
 
 ACCEPTED SUBSET (anything else raises Unsupported: exit code 3, `UNSUPPORTED: <node> (line n): <why>`; never skipped)
   statements  docstring / bare string | NAME = e | NAME, NAME = e | NAME.append(e) | assert e | if / elif / else
-              | for NAME in e: <assignments, appends, ifs, asserts>   (no return / break / raise inside a loop; the names assigned in the
-                body are the loop state; a name first bound inside a loop is None before it)
+              | NAME += e | NAME[e, e] = e (integer matrix)
+              | for NAME | NAME, NAME in e: <assignments, appends, ifs, asserts, nested for, break as last statement of a branch>
+                (no return / raise inside a loop; the names assigned in the body are the loop state; a name first bound inside a loop is None before it)
               | return e | raise Name(...)
   expressions str / int / float / None / True / False / complex (1j) constants | names | [e, ...] | (e, ...) | {"k": e, ...}
-              | e + e | e * e | -e | e == e | e != e | e in e | e not in e | not e | e[int const] | e["str const"] | e[a:b] (int const bounds)
+              | e + e | e * e | e @ e | -e | e == e | e != e | e < <= > >= e | e in e | e not in e | not e | e and e | e or e
+              | e[e] | e["str const"] | e[a:b] (int const bounds) | e.T | sorted(e) | enumerate(e) | int(e, base) | e.count(e)
+              | get_pauli_basis(n_qubit=const)  (external: element i is the atom "pauli<n>:<i>")
               | e if e else e | len(e) | e.split("c") | e.replace(e, e) | np.pi | np.zeros(shape=(n, n), ...) | np.kron(e, e)
               | np.array(e, ...) | np.eye(n, ...) | eval(e)() | f(e, ..., kw=e) for translated f (all parameters given)
   A float constant must be an exact short decimal (it is read as a rational: 0.50 -> 1/2).
@@ -25,7 +28,8 @@ import ast, sys, os
 from fractions import Fraction
 
 ROOTS = ["calc_hamiltonian_mat_from_gate_name_2qutrit_base_matrices", "generate_gate_1qutrit_single_gellmann_hamiltonian_mat",
-         "calc_coeff_from_angle_str"]
+         "calc_coeff_from_angle_str",
+         "get_permutation_matrix_from_ascending_order", "permute_pauli_symbol", "generate_gate_toffoli_hamiltonian_mat", "generate_gate_fredkin_hamiltonian_mat"]
 METHOD_PREFIX = "calc_base_matrix_1qutrit_"
 SOURCE = "quara/objects/gate_typical.py"
 
@@ -64,6 +68,7 @@ class Fn:
             fail(fdef, "only plain positional parameters")
         self.calls = []
         self.fresh = 0
+        self.locals = {n.id for n in ast.walk(fdef) if isinstance(n, ast.Name) and isinstance(n.ctx, ast.Store)}
 
     def tmp(self, base):
         self.fresh += 1
@@ -94,6 +99,8 @@ class Fn:
             fail(e, "constant %r" % (c,))
         if isinstance(e, ast.Name):
             if e.id not in bound:
+                if e.id in self.locals:
+                    return '(PErr "UnboundLocalError")'          # a local that is not assigned on this path (e.g. if / elif chain without else)
                 fail(e, "name %s is not bound here" % e.id)
             return k(v(e.id))
         if isinstance(e, (ast.List, ast.Tuple)):
@@ -106,7 +113,7 @@ class Fn:
                 keys.append(kk.value)
             return self.exprs(e.values, bound, lambda xs: k("(VDict [%s])" % "; ".join("(%s, %s)" % (cstr(a), b) for a, b in zip(keys, xs))))
         if isinstance(e, ast.BinOp):
-            op = {ast.Add: "py_add", ast.Mult: "py_mul"}.get(type(e.op))
+            op = {ast.Add: "py_add", ast.Mult: "py_mul", ast.MatMult: "py_matmul"}.get(type(e.op))
             if op is None:
                 fail(e, "operator %s" % type(e.op).__name__)
             return self.exprs([e.left, e.right], bound, lambda xs: self.bind("(%s %s %s)" % (op, xs[0], xs[1]), k))
@@ -119,7 +126,7 @@ class Fn:
         if isinstance(e, ast.Compare):
             if len(e.ops) != 1:
                 fail(e, "chained comparison")
-            op = {ast.Eq: "py_eq", ast.NotEq: "py_ne", ast.In: "py_in", ast.NotIn: "py_in"}.get(type(e.ops[0]))
+            op = {ast.Eq: "py_eq", ast.NotEq: "py_ne", ast.In: "py_in", ast.NotIn: "py_in", ast.Lt: "py_lt", ast.Gt: "py_gt", ast.LtE: "py_le", ast.GtE: "py_ge"}.get(type(e.ops[0]))
             if op is None:
                 fail(e, "comparison %s" % type(e.ops[0]).__name__)
             neg = isinstance(e.ops[0], ast.NotIn)
@@ -148,11 +155,23 @@ class Fn:
                 return self.expr(e.value, bound, lambda x: self.bind("(py_getitem %s (VInt %s))" % (x, cz(n)), k))
             if isinstance(sl, ast.Constant) and isinstance(sl.value, str):
                 return self.expr(e.value, bound, lambda x: self.bind("(py_getitem %s (VStr %s))" % (x, cstr(sl.value)), k))
-            fail(e, "subscript must be an integer or string constant")
+            return self.exprs([e.value, sl], bound, lambda xs: self.bind("(py_getitem_ext %s %s)" % (xs[0], xs[1]), k))
         if isinstance(e, ast.Attribute):
             if isinstance(e.value, ast.Name) and e.value.id == "np" and e.attr == "pi":
                 return k("(VNum npi)")
+            if e.attr == "T":
+                return self.expr(e.value, bound, lambda x: self.bind("(py_T %s)" % x, k))
             fail(e, "attribute %s" % e.attr)
+        if isinstance(e, ast.BoolOp):
+            if len(e.values) != 2:
+                fail(e, "and / or with more than two operands")
+            is_or = isinstance(e.op, ast.Or)
+            def after(x):
+                b = self.tmp("b")
+                other = self.expr(e.values[1], bound, lambda y: self.bind("(py_truth %s)" % y, lambda c: k("(VBool %s)" % c)))
+                short = k("(VBool %s)" % ("true" if is_or else "false"))
+                return "(pbind (py_truth %s) (fun %s => if %s then %s else %s))" % (x, b, b, short if is_or else other, other if is_or else short)
+            return self.expr(e.values[0], bound, after)
         if isinstance(e, ast.IfExp):
             def after(x):
                 b = self.tmp("b")
@@ -188,6 +207,16 @@ class Fn:
         if isinstance(f, ast.Name):
             if f.id == "len" and len(e.args) == 1 and not e.keywords:
                 return self.expr(e.args[0], bound, lambda x: self.bind("(py_len %s)" % x, k))
+            if f.id in ("sorted", "enumerate") and len(e.args) == 1 and not e.keywords:
+                return self.expr(e.args[0], bound, lambda x: self.bind("(py_%s %s)" % (f.id, x), k))
+            if f.id == "int" and len(e.args) == 2 and not e.keywords:
+                return self.exprs(e.args, bound, lambda xs: self.bind("(py_int_base %s %s)" % (xs[0], xs[1]), k))
+            if f.id == "get_pauli_basis" and f.id not in self.mod.defs:
+                arg = e.args[0] if (len(e.args) == 1 and not e.keywords) else (e.keywords[0].value if (not e.args and len(e.keywords) == 1 and e.keywords[0].arg == "n_qubit") else None)
+                n = self.intconst(arg) if arg is not None else None
+                if n is None or not (1 <= n <= 4):
+                    fail(e, "get_pauli_basis needs a constant number of qubits")
+                return k("(VExt %s %d)" % (cstr("pauli%d" % n), 2 ** n))
             if f.id in self.mod.defs:
                 callee = self.mod.defs[f.id]
                 params = [a.arg for a in callee.args.args]
@@ -219,26 +248,30 @@ class Fn:
                             shape = kw.value
                         elif kw.arg != "dtype":
                             fail(e, "np.zeros keyword %s" % kw.arg)
-                    if not (isinstance(shape, ast.Tuple) and len(shape.elts) == 2 and self.intconst(shape.elts[0]) is not None
-                            and self.intconst(shape.elts[0]) == self.intconst(shape.elts[1])):
-                        fail(e, "np.zeros needs a constant square shape")
-                    return self.bind("(np_zeros_square (VInt %s))" % cz(self.intconst(shape.elts[0])), k)
+                    is_int = any(kw.arg == "dtype" and isinstance(kw.value, ast.Name) and kw.value.id == "int" for kw in e.keywords)
+                    if not (isinstance(shape, ast.Tuple) and len(shape.elts) == 2 and ast.dump(shape.elts[0]) == ast.dump(shape.elts[1])
+                            and (self.intconst(shape.elts[0]) is not None or isinstance(shape.elts[0], ast.Name))):
+                        fail(e, "np.zeros needs a square shape (n, n) with n a constant or a name")
+                    return self.expr(shape.elts[0], bound, lambda x: self.bind("(%s %s)" % ("np_zeros_int" if is_int else "np_zeros_square", x), k))
                 if f.attr in ("array", "eye") and len(e.args) == 1 and all(kw.arg == "dtype" for kw in e.keywords):
-                    return self.expr(e.args[0], bound, lambda x: self.bind("(np_%s %s)" % (f.attr, x), k))
+                    return self.expr(e.args[0], bound, lambda x: self.bind("(np_%s %s)" % ("array_any" if f.attr == "array" else "eye", x), k))
                 fail(e, "np.%s" % f.attr)
             if f.attr == "split" and len(e.args) == 1 and not e.keywords:
                 return self.exprs([f.value, e.args[0]], bound, lambda xs: self.bind("(py_split %s %s)" % (xs[0], xs[1]), k))
+            if f.attr == "count" and len(e.args) == 1 and not e.keywords:
+                return self.exprs([f.value, e.args[0]], bound, lambda xs: self.bind("(py_count %s %s)" % (xs[0], xs[1]), k))
             if f.attr == "replace" and len(e.args) == 2 and not e.keywords:
                 return self.exprs([f.value] + list(e.args), bound, lambda xs: self.bind("(py_replace %s %s %s)" % tuple(xs), k))
             fail(e, "method %s" % f.attr)
         fail(e, "call")
 
-    # ---------------- statements.  cont(bound) gives the Coq term for "what follows" (may be called twice: if / else)
-    def block(self, stmts, bound, cont, in_loop=False):
+    # ---------------- statements.  cont(bound) gives the Coq term for "what follows" (may be called twice: if / else).
+    # loop = None outside a loop, else the function that renders the loop state tuple (argument: Coq text of the `broken` flag)
+    def block(self, stmts, bound, cont, loop=None):
         if not stmts:
             return cont(bound)
         s, rest = stmts[0], stmts[1:]
-        nxt = lambda b: self.block(rest, b, cont, in_loop)
+        nxt = lambda b: self.block(rest, b, cont, loop)
         if isinstance(s, ast.Expr):
             if isinstance(s.value, ast.Constant) and isinstance(s.value.value, str):
                 return nxt(bound)
@@ -250,6 +283,12 @@ class Fn:
                     fail(s, "append to unbound name %s" % name)
                 return self.expr(c.args[0], bound, lambda x: "(pbind (py_append %s %s) (fun %s => %s))" % (v(name), x, v(name), nxt(bound)))
             fail(s, "expression statement")
+        if isinstance(s, ast.AugAssign):
+            if not (isinstance(s.target, ast.Name) and isinstance(s.op, ast.Add)):
+                fail(s, "augmented assignment other than NAME += e")
+            if s.target.id not in bound:
+                fail(s, "name %s is not bound here" % s.target.id)
+            return self.expr(s.value, bound, lambda x: "(pbind (py_add %s %s) (fun %s => %s))" % (v(s.target.id), x, v(s.target.id), nxt(bound)))
         if isinstance(s, ast.Assign):
             if len(s.targets) != 1:
                 fail(s, "multiple assignment targets")
@@ -258,13 +297,13 @@ class Fn:
                 return self.expr(s.value, bound, lambda x: "(let %s := %s in %s)" % (v(t.id), x, nxt(bound | {t.id})))
             if isinstance(t, ast.Tuple) and all(isinstance(x, ast.Name) for x in t.elts):
                 names = [x.id for x in t.elts]
-                def unpack(x):
-                    tup = self.tmp("tup")
-                    body = nxt(bound | set(names))
-                    for i in reversed(range(len(names))):
-                        body = "(pbind (py_getitem %s (VInt %s)) (fun %s => %s))" % (tup, cz(i), v(names[i]), body)
-                    return "(let %s := %s in pbind (py_len %s) (fun n_ => pbind (py_assert_eq n_ (VInt %s)) (fun _ => %s)))" % (tup, x, tup, cz(len(names)), body)
-                return self.expr(s.value, bound, unpack)
+                return self.expr(s.value, bound, lambda x: self.unpack(x, names, lambda: nxt(bound | set(names))))
+            if isinstance(t, ast.Subscript) and isinstance(t.value, ast.Name) and isinstance(t.slice, ast.Tuple) and len(t.slice.elts) == 2:
+                m = t.value.id
+                if m not in bound:
+                    fail(s, "item assignment to unbound name %s" % m)
+                return self.exprs(list(t.slice.elts) + [s.value], bound,
+                                  lambda xs: "(pbind (py_setitem2 %s %s %s %s) (fun %s => %s))" % (v(m), xs[0], xs[1], xs[2], v(m), nxt(bound)))
             fail(s, "assignment target")
         if isinstance(s, ast.Assert):
             return self.expr(s.test, bound, lambda x: "(pbind (py_assert %s) (fun _ => %s))" % (x, nxt(bound)))
@@ -272,37 +311,54 @@ class Fn:
             def after(x):
                 b = self.tmp("b")
                 return "(pbind (py_truth %s) (fun %s => if %s then %s else %s))" % (
-                    x, b, b, self.block(list(s.body) + rest, bound, cont, in_loop), self.block(list(s.orelse) + rest, bound, cont, in_loop))
+                    x, b, b, self.block(list(s.body) + rest, bound, cont, loop), self.block(list(s.orelse) + rest, bound, cont, loop))
             return self.expr(s.test, bound, after)
         if isinstance(s, ast.For):
-            if in_loop:
-                fail(s, "nested loop")
-            if s.orelse or not isinstance(s.target, ast.Name):
-                fail(s, "for target / else")
-            state = sorted(self.assigned(s.body))
-            if s.target.id in state:
+            if s.orelse:
+                fail(s, "for ... else")
+            if isinstance(s.target, ast.Name):
+                targets = [s.target.id]
+            elif isinstance(s.target, ast.Tuple) and all(isinstance(x, ast.Name) for x in s.target.elts):
+                targets = [x.id for x in s.target.elts]
+            else:
+                fail(s, "for target")
+            state = sorted(self.assigned(s.body) - set(targets))
+            if set(targets) & self.assigned(s.body):
                 fail(s, "loop variable is assigned in the body")
-            pre = "".join("(let %s := VNone in " % v(n) for n in state if n not in bound)
-            post = ")" * sum(1 for n in state if n not in bound)
-            b_in = bound | set(state) | {s.target.id}
-            tup = "(%s)" % ", ".join(v(n) for n in state) if len(state) != 1 else v(state[0])
-            if not state:
-                tup = "tt"
-            pat = "let '%s := st_ in " % tup if len(state) > 1 else ("let %s := st_ in " % v(state[0]) if state else "")
-            body = self.block(list(s.body), b_in, lambda b: "(POk %s)" % tup, in_loop=True)
+            fresh = [n for n in state if n not in bound]
+            pre = "".join("(let %s := VNone in " % v(n) for n in fresh)
+            post = ")" * len(fresh)
+            b_in = bound | set(state) | set(targets)
+            brk = self.tmp("brk")
+            def tup(flag):
+                return "(%s)" % ", ".join([v(n) for n in state] + [flag])
+            pat = "let '%s := st_ in " % tup(brk)
+            item = self.tmp("it")
+            inner = self.block(list(s.body), b_in, lambda b: "(POk %s)" % tup("false"), loop=tup)
+            if len(targets) == 1:
+                body = "(let %s := %s in %s)" % (v(targets[0]), item, inner)
+            else:
+                body = self.unpack(item, targets, lambda: inner)
             after = nxt(bound | set(state))
-            def loop(x):
-                return "%s(pbind (py_iter %s) (fun items_ => pbind (pfold (fun st_ %s => %s%s) items_ %s) (fun st_ => %s%s)))%s" % (
-                    pre, x, v(s.target.id), pat, body, tup, pat, after, post)
-            return self.expr(s.iter, bound, loop)
+            def render(x):
+                ty = "(%s)%%type" % " * ".join(["pyv"] * len(state) + ["bool"])
+                return "%s(pbind (py_iter %s) (fun items_ => pbind (pfold (fun (st_ : %s) %s => %sif %s then POk st_ else %s) items_ %s) (fun st_ => %s%s)))%s" % (
+                    pre, x, ty, item, pat, brk, body, tup("false"), pat, after, post)
+            return self.expr(s.iter, bound, render)
+        if isinstance(s, ast.Break):
+            if loop is None:
+                fail(s, "break outside a loop")
+            if rest:
+                fail(s, "statements after break")
+            return "(POk %s)" % loop("true")
         if isinstance(s, ast.Return):
-            if in_loop:
+            if loop is not None:
                 fail(s, "return inside a loop")
             if s.value is None:
                 return "(POk VNone)"
             return self.expr(s.value, bound, lambda x: "(POk %s)" % x)
         if isinstance(s, ast.Raise):
-            if in_loop:
+            if loop is not None:
                 fail(s, "raise inside a loop")
             exc = s.exc
             if isinstance(exc, ast.Call):
@@ -312,21 +368,37 @@ class Fn:
             return "(PErr %s)" % cstr(exc.id)
         fail(s, "statement")
 
+    def unpack(self, x, names, body):
+        tup = self.tmp("tup")
+        text = body()
+        for i in reversed(range(len(names))):
+            text = "(pbind (py_getitem %s (VInt %s)) (fun %s => %s))" % (tup, cz(i), v(names[i]), text)
+        return "(let %s := %s in pbind (py_len %s) (fun n_ => pbind (py_assert_eq n_ (VInt %s)) (fun _ => %s)))" % (tup, x, tup, cz(len(names)), text)
+
     def assigned(self, stmts):
         out = set()
         for s in stmts:
             if isinstance(s, ast.Assign):
                 for t in s.targets:
-                    for n in ([t] if isinstance(t, ast.Name) else list(getattr(t, "elts", []))):
+                    if isinstance(t, ast.Subscript) and isinstance(t.value, ast.Name):
+                        out.add(t.value.id); continue
+                    for n in ([t] if isinstance(t, ast.Name) else list(getattr(t, "elts", [None]))):
                         if not isinstance(n, ast.Name):
                             fail(s, "assignment target in loop")
                         out.add(n.id)
+            elif isinstance(s, ast.AugAssign) and isinstance(s.target, ast.Name):
+                out.add(s.target.id)
             elif isinstance(s, ast.Expr) and isinstance(s.value, ast.Call) and isinstance(s.value.func, ast.Attribute) and s.value.func.attr == "append" \
                     and isinstance(s.value.func.value, ast.Name):
                 out.add(s.value.func.value.id)
             elif isinstance(s, ast.If):
                 out |= self.assigned(s.body) | self.assigned(s.orelse)
-            elif isinstance(s, (ast.Assert, ast.Expr)):
+            elif isinstance(s, ast.For):
+                out |= self.assigned(s.body)
+                for n in ([s.target] if isinstance(s.target, ast.Name) else list(getattr(s.target, "elts", []))):
+                    if isinstance(n, ast.Name):
+                        out.add(n.id)
+            elif isinstance(s, (ast.Assert, ast.Expr, ast.Break)):
                 pass
             else:
                 fail(s, "statement inside a loop")
@@ -380,7 +452,8 @@ def main():
     with open(out, "w") as f:
         f.write("(* GENERATED by gen/c17_py2coq.py from %s - do not edit *)\n" % SOURCE)
         f.write("From Coq Require Import String List ZArith QArith Qcanon Bool.\nFrom QV.Model Require Import C17_PySem.\nImport ListNotations.\nOpen Scope string_scope.\n\n")
-        f.write("Definition py_assert_eq (a b : pyv) : pres unit := if py_eqb a b then POk tt else PErr \"ValueError\".\n\n")
+        f.write("Definition py_assert_eq (a b : pyv) : pres unit := if py_eqb a b then POk tt else PErr \"ValueError\".\n")
+        f.write("Definition np_array_any (a : pyv) : pres pyv := match np_array a with POk x => POk x | PErr _ => np_array1 a end.\n\n")
         for name in order[:n_methods]:
             f.write(done[name] + "\n\n")
         f.write("Definition g_method_table : list (string * pres pyv) :=\n  [%s].\n\n" % ";\n   ".join("(%s, g_%s)" % (cstr(m), m) for m in methods))
